@@ -82,6 +82,18 @@ def _doc_value(var: rs.Var, x: int):
     return int(x)
 
 
+def _role_plural(variant: int, r: int) -> str:
+    """key under which a person holding flattened role r is listed in a household of the document"""
+    if variant == 0:
+        return rs.ROLES[r]["plural"]
+    return ["parents", "parents", "members", "heads"][r]
+
+
+def _role_table(variant: int):
+    """-> (number of flattened roles, the head role, roles held by at most one person, the unbounded role)"""
+    return (3, 2, [2], 0) if variant == 0 else (4, 3, [0, 1, 3], 2)
+
+
 def _gid(e: EqvCase, g: int) -> str:
     """id of household g: its declared id, or (own household appended by the builder) its person's id"""
     own = getattr(e, "own", None) or {}
@@ -96,6 +108,7 @@ def document(e: EqvCase, sel, gsel) -> dict:
     c = e.case
     own = getattr(e, "own", None) or {}
     roles = list(getattr(c, "roles", None) or [0] * c.nP)
+    variant = getattr(c, "role_variant", 0)
     rng = random.Random(e.member_seed)
     persons = {e.pids[i]: {} for i in sel}
     households = {}
@@ -105,8 +118,9 @@ def document(e: EqvCase, sel, gsel) -> dict:
         h = {}
         members = [i for i in range(c.nP) if c.mem[i] == g]
         rng.shuffle(members)
-        for i in members:
-            h.setdefault(rs.ROLES[roles[i]]["plural"], []).append(e.pids[i])
+        # the builder gives the k-th person listed under a role with sub-roles the k-th sub-role: flattened order
+        for i in sorted(members, key=lambda i: roles[i]) if variant else members:
+            h.setdefault(_role_plural(variant, roles[i]), []).append(e.pids[i])
         if not members and rng.random() < 0.5:
             h["members"] = []
         households[e.gids[g]] = h
@@ -124,8 +138,8 @@ def document(e: EqvCase, sel, gsel) -> dict:
                 if g not in skip and g not in own:
                     households[e.gids[g]].setdefault(f"v{v}", {})[key] = _doc_value(var, vals[g])
     doc = {"persons": persons, "households": households}
-    if not households and rng.random() < 0.5:
-        del doc["households"]                    # no household declared at all: the builder's default groups
+    if not households and rng.random() < 0.8:
+        del doc["households"]                    # no household section at all: the builder's default-group path
     return doc
 
 
@@ -134,7 +148,8 @@ def restricted_case(c: rs.SysCase, sel, gsel) -> rs.SysCase:
     mem = [gsel.index(c.mem[i]) for i in sel]
     inputs = [(v, tok, [vals[i] for i in (sel if c.vars[v].entity == 0 else gsel)]) for v, tok, vals in c.inputs]
     roles = list(getattr(c, "roles", None) or [])
-    return rs.SysCase(len(sel), len(gsel), mem, c.msl, c.vars, inputs, c.reqs, roles=[roles[i] for i in sel] if roles else [])
+    return rs.SysCase(len(sel), len(gsel), mem, c.msl, c.vars, inputs, c.reqs, roles=[roles[i] for i in sel] if roles else [],
+                      role_variant=getattr(c, "role_variant", 0))
 
 
 def _run_requests(c: rs.SysCase, sim, ctx, gperm=None) -> str:
@@ -271,35 +286,54 @@ def nontrivial(case: Case, out: str) -> bool:
 # generators
 
 
-def gen_population(rng: random.Random, unlisted=False):
-    """2-3 situations, each with its own persons and households (possibly a household without
-    member), merged in a random order (or simply concatenated).  Roles: in 75% of the households
-    one member is the head (unique role), up to two others are parents, the rest plain members.
-    `unlisted`: some persons are listed in NO household; the builder gives each a household of its
-    own, appended after the declared ones (here: in person order).
+def gen_population(rng: random.Random, unlisted=False, variant=0):
+    """2-3 situations, each with its own persons and households (25%: plus a household without
+    member, which lands in every position of the merged population; 20% of the populations: one is
+    moved to the very end, right after a household with >= 2 members when there is one), merged in
+    a random order (or simply concatenated).  Roles: in 75% of the households one member is the
+    head (unique role); variant 0: up to two others are parents, the rest plain members (role 0);
+    variant 1 (first role with sub-roles): a first parent (flattened role 0), possibly a second
+    parent (1), the rest plain members (2).
+    `unlisted`: some persons are listed in NO household — single persons, or (30% of the
+    situations) the whole situation, which then has no household section at all; the builder gives
+    each a household of its own (role: the first flattened role), appended after the declared ones.
     -> nP, nG, mem, roles, person situation, household situation, own {household: person}, k"""
+    nroles, head, unique, plain = _role_table(variant)
     k = rng.choice([2, 2, 3])
     persons, groups = [], []                      # (situation, local id)
     p_group, p_role, loose = {}, {}, set()
+    bare = set()                                  # situations without household section
     for s in range(k):
         nP = rng.randint(1, 4)
         nG = rng.randint(1, min(3, nP))
         mem = list(range(nG)) + [rng.randrange(nG) for _ in range(nP - nG)]
         rng.shuffle(mem)
-        if rng.random() < 0.15:
+        if unlisted and rng.random() < 0.3 and len(bare) < k - 1:
+            bare.add(s)
+            for i in range(nP):
+                loose.add((s, i))
+            nG = 0
+        elif rng.random() < 0.25:
             nG += 1                               # a household nobody lives in
-        if unlisted and rng.random() < 0.65:
+        if unlisted and s not in bare and rng.random() < 0.5:
             for i in rng.sample(range(nP), rng.randint(1, min(2, nP))):
                 loose.add((s, i))
         for j in range(nG):
             groups.append((s, j))
             members = [i for i in range(nP) if mem[i] == j and (s, i) not in loose]
             rng.shuffle(members)
+            for i in members:
+                p_role[(s, i)] = plain
             if members and rng.random() < 0.75:
-                p_role[(s, members.pop())] = rs.UNIQUE_ROLE
-            for i in members[:2]:
-                if rng.random() < 0.4:
-                    p_role[(s, i)] = 1
+                p_role[(s, members.pop())] = head
+            if variant == 0:
+                for i in members[:2]:
+                    if rng.random() < 0.4:
+                        p_role[(s, i)] = 1
+            elif members and rng.random() < 0.6:
+                p_role[(s, members.pop())] = 0                  # first parent
+                if members and rng.random() < 0.5:
+                    p_role[(s, members.pop())] = 1              # second parent (never without a first one)
         for i in range(nP):
             persons.append((s, i))
             p_group[(s, i)] = (s, mem[i])
@@ -308,11 +342,24 @@ def gen_population(rng: random.Random, unlisted=False):
         rng.shuffle(groups)
     elif rng.random() < 0.5:
         rng.shuffle(groups)                       # persons concatenated, households interleaved
+    size = {g: sum(1 for p in persons if p not in loose and p_group[p] == g) for g in groups}
+    empties = [g for g in groups if size[g] == 0]
+    if empties and rng.random() < 0.5:
+        # an empty declared household listed LAST, the last non-empty one before it having >= 2 members if possible
+        g = rng.choice(empties)
+        groups.remove(g)
+        big = [h for h in groups if size[h] >= 2]
+        if big and rng.random() < 0.8:
+            h = rng.choice(big)
+            groups.remove(h)
+            groups = [x for x in groups if size[x] > 0] + [h] + [x for x in groups if size[x] == 0]
+        groups.append(g)
     own = {}
     for i, pp in enumerate(persons):
         if pp in loose:
             own[len(groups)] = i
             p_group[pp] = ("own", pp)
+            p_role[pp] = 0                        # the first flattened role, whatever the variant
             groups.append(("own", pp))
     gpos = {g: j for j, g in enumerate(groups)}
     mem = [gpos[p_group[p]] for p in persons]
@@ -321,7 +368,46 @@ def gen_population(rng: random.Random, unlisted=False):
     return len(persons), len(groups), mem, roles, [p[0] for p in persons], gsit, own, k
 
 
-def _role_heavy(rng: random.Random, vars_: list) -> list:
+def _reduce_heavy(rng: random.Random, vars_: list, variant=0) -> list:
+    """append monthly household variables built on the reductions max / min / all (without role
+    filter and over a role), and a person variable that reads one back through the projection"""
+    nroles = _role_table(variant)[0]
+
+    def person_atom():
+        cands = [j for j, v in enumerate(vars_) if v.entity == 0 and rs._compat(v, "month")]
+        if cands and rng.random() < 0.9:
+            j = rng.choice(cands)
+            pt, add = rng.choice(rs._compat(vars_[j], "month"))
+            return ("v", j, pt, add)
+        return ("c", rng.randint(1, 9))
+
+    def digit():
+        return rs.NO_ROLE if rng.random() < 0.6 else rng.randrange(nroles)
+    out = []
+    m = len(vars_)
+    vars_.append(rs.Var(entity=1, vtype=rng.choice(["int", "float"]), unit="month", dflt=rng.randint(-3, 5),
+                        formulas=[(1, ("o1", rng.choice([50, 60]) + digit(), person_atom()))]))
+    out.append(m)
+    if rng.random() < 0.7:
+        g = len(vars_)
+        vars_.append(rs.Var(entity=1, vtype="int", unit="month", dflt=0,
+                            formulas=[(1, ("o2", rng.choice([0, 1]), ("o1", 50 + digit(), person_atom()), ("o1", 60 + digit(), person_atom())))]))
+        out.append(g)
+    if rng.random() < 0.7:
+        g = len(vars_)
+        cond = ("o2", rng.choice([4, 5, 6]), person_atom(), person_atom()) if rng.random() < 0.7 else person_atom()
+        vars_.append(rs.Var(entity=1, vtype=rng.choice(["bool", "int"]), unit="month", dflt=0,
+                            formulas=[(1, ("o1", 70 + digit(), cond))]))
+        out.append(g)
+    if rng.random() < 0.5:
+        q = len(vars_)
+        vars_.append(rs.Var(entity=0, vtype="int", unit="month", dflt=0,
+                            formulas=[(1, ("o2", 1, ("o1", 2, ("v", m, "same", False)), person_atom()))]))
+        out.append(q)
+    return out
+
+
+def _role_heavy(rng: random.Random, vars_: list, variant=0) -> list:
     """append monthly variables built on the role operations: the head's value per household
     (`value_from_person`), its projection back onto the members ("the income of my head"), a
     role-filtered sum plus a count of role holders, `any` over a role."""
@@ -333,7 +419,8 @@ def _role_heavy(rng: random.Random, vars_: list) -> list:
             return ("v", j, pt, add)
         return ("c", rng.randint(1, 9))
     out = []
-    H = rs.UNIQUE_ROLE
+    nroles, head, unique, plain = _role_table(variant)
+    H = head if rng.random() < 0.7 else rng.choice(unique)
     h = len(vars_)
     vars_.append(rs.Var(entity=1, vtype=rng.choice(["int", "float"]), unit="month", dflt=rng.randint(-3, 5),
                         formulas=[(1, ("o1", 20 + H, person_atom()))]))
@@ -346,14 +433,14 @@ def _role_heavy(rng: random.Random, vars_: list) -> list:
     if rng.random() < 0.7:
         g = len(vars_)
         vars_.append(rs.Var(entity=1, vtype="int", unit="month", dflt=0,
-                            formulas=[(1, ("o2", rng.choice([0, 1]), ("o1", 10 + rng.randrange(3), person_atom()),
-                                           ("o1", 30 + rng.randrange(3), ("c", 0))))]))
+                            formulas=[(1, ("o2", rng.choice([0, 1]), ("o1", 10 + rng.randrange(nroles), person_atom()),
+                                           ("o1", 30 + rng.randrange(nroles), ("c", 0))))]))
         out.append(g)
     if rng.random() < 0.5:
         g = len(vars_)
         cond = ("o2", rng.choice([4, 5, 6]), person_atom(), ("o1", 2, ("v", h, "same", False)))
         vars_.append(rs.Var(entity=1, vtype=rng.choice(["bool", "int"]), unit="month", dflt=0,
-                            formulas=[(1, ("o1", 40 + rng.randrange(3), cond))]))
+                            formulas=[(1, ("o1", 40 + rng.randrange(nroles), cond))]))
         out.append(g)
     return out
 
@@ -372,7 +459,15 @@ def _own_heavy(rng: random.Random, vars_: list) -> list:
     q = len(vars_)
     vars_.append(rs.Var(entity=0, vtype="int", unit="month", dflt=0,
                         formulas=[(1, ("o2", rng.choice([0, 1]), ("o1", 2, ("v", r, "same", False)), atom))]))
-    return [r, q]
+    # role-dependent: how many holders of the first flattened role (the role the builder gives a person it puts in a
+    # household of its own), and a role-filtered sum of ones (= has_role)
+    n = len(vars_)
+    vars_.append(rs.Var(entity=1, vtype="int", unit="month", dflt=0,
+                        formulas=[(1, ("o2", 0, ("o1", 30, ("c", 0)), ("o1", 150 + 3, ("o1", 10, ("c", 1)))))]))
+    w = len(vars_)
+    vars_.append(rs.Var(entity=0, vtype="int", unit="month", dflt=0,
+                        formulas=[(1, ("o2", 0, ("o1", 2, ("v", n, "same", False)), ("o1", 2, ("o1", 30 + rng.randrange(3), ("c", 0)))))]))
+    return [r, q, n, w]
 
 
 def _group_heavy(rng: random.Random, vars_: list) -> list:
@@ -405,13 +500,15 @@ def _group_heavy(rng: random.Random, vars_: list) -> list:
 
 
 def gen_eqv(rng: random.Random, direct=False, faults=True, bad_rate=0.0, unlisted=False) -> tuple:
-    nP, nG, mem, roles, psit, gsit, own, k = gen_population(rng, unlisted)
+    variant = 1 if rng.random() < 0.4 else 0
+    nP, nG, mem, roles, psit, gsit, own, k = gen_population(rng, unlisted, variant)
     fault_ids = [] if faults else None
     vars_ = rs.gen_vars(rng, rng.randint(3, 9), fault_ids=fault_ids, bad_rate=bad_rate)
     extra = _group_heavy(rng, vars_) if rng.random() < 0.6 else []
-    extra_r = _role_heavy(rng, vars_) if rng.random() < 0.6 else []
+    extra_r = _role_heavy(rng, vars_, variant) if rng.random() < 0.6 else []
+    extra_m = _reduce_heavy(rng, vars_, variant) if rng.random() < 0.6 else []
     extra_o = _own_heavy(rng, vars_) if own else []
-    extra = extra + extra_r + extra_o
+    extra = extra + extra_r + extra_m + extra_o
     inputs = rs.gen_inputs(rng, vars_, nP, nG, rate=0.3)
     if own:
         # a household the builder creates cannot carry a value: household-level inputs go to variables without
@@ -434,7 +531,7 @@ def gen_eqv(rng: random.Random, direct=False, faults=True, bad_rate=0.0, unliste
         reqs = reqs[:a] + [("arm", fid)] + reqs[a:]
         b = rng.randint(a + 1, len(reqs))
         reqs = reqs[:b] + [("disarm", fid)] + reqs[b:] + rng.sample([r for r in reqs if r[0] in ("calc", "add")], 1)
-    c = rs.SysCase(nP, nG, mem, rng.choice([1, 1, 2, 3]), vars_, inputs, reqs, roles=roles)
+    c = rs.SysCase(nP, nG, mem, rng.choice([1, 1, 2, 3]), vars_, inputs, reqs, roles=roles, role_variant=variant)
     sels = []
     for s in range(k):
         sels.append(("merge", [i for i in range(nP) if psit[i] == s], [g for g in range(nG) if gsit[g] == s]))
@@ -465,9 +562,20 @@ def gen_eqv(rng: random.Random, direct=False, faults=True, bad_rate=0.0, unliste
         tags.append("group-heavy")
     if extra_r:
         tags.append("role-ops")
+    if extra_m:
+        tags.append("reductions")
+    tags.append(f"role-variant={variant}")
+    declared = [g for g in range(nG) if g not in own]
+    if declared and declared[-1] not in mem:
+        tags.append("empty-declared-household-last")
+        ne = [g for g in declared if g in mem]
+        if ne and mem.count(ne[-1]) >= 2:
+            tags.append("empty-last-after-household>=2")
+    if own and any(all(g in own for g in range(nG) if gsit[g] == s_) for s_ in range(k)):
+        tags.append("situation-without-household-section")
     if own:
         tags.append("unlisted-persons")
-    heads = {mem[i] for i in range(nP) if roles[i] == rs.UNIQUE_ROLE}
+    heads = {mem[i] for i in range(nP) if roles[i] == _role_table(variant)[1] and mem[i] not in own}
     tags.append("heads>=half" if 2 * len(heads) >= nG else "heads<half")
     return e, tags
 
